@@ -85,7 +85,8 @@ pub fn draw(ch: &mut Chooser, prof: &Profile) -> Cfg {
             0 => 1,
             1 => 1 + ch.choose(3) as usize,
             2 => 16 - ch.choose(2) as usize,
-            _ => 1 + ch.choose(16) as usize,
+            // an endpoint without vendor-defined support (no sets) is a valid configuration too
+            _ => ch.choose(17) as usize,
         };
         let mut vendors = Vec::with_capacity(n_sets);
         let mut vplain = Vec::with_capacity(n_sets);
